@@ -150,6 +150,13 @@ func gen(g *GenCtx) {
 			bl = strings.Join(blocks, ";")
 		}
 		g.Op("hosts %s %s", HexOrDash(host), bl)
+		if len(blocks) > 0 && g.R.Chance(1, 4) {
+			// the same configuration asked about several hosts in a row: one that matches its first pattern,
+			// the generated host, the empty name, the generated host again
+			fb, _ := Unhex(strings.Split(blocks[0], ",")[0])
+			fb = []byte(strings.ReplaceAll(string(fb), "*", "x"))
+			g.Op("hostseq %s,%s,-,%s %s", HexOrDash(fb), HexOrDash(host), HexOrDash(host), bl)
+		}
 		// the same patterns, flattened, as a virtual-host list
 		var flat []string
 		for _, b := range blocks {
@@ -252,6 +259,42 @@ func run(in *bufio.Scanner, out *bufio.Writer) {
 					return "none"
 				}
 				return strings.Join(hc.CAFiles, ",")
+			})
+		case len(f) == 3 && f[0] == "hostseq":
+			// several lookups on ONE parsed configuration: each answers as if it were the first (a
+			// lookup leaves nothing behind in the configuration)
+			var hostsL [][]byte
+			good := true
+			for _, hx := range strings.Split(f[1], ",") {
+				h, ok := Unhex(hx)
+				good = good && ok
+				hostsL = append(hostsL, h)
+			}
+			cc := &config.ClientConfig{}
+			if f[2] != "." {
+				for i, b := range strings.Split(f[2], ";") {
+					ps, ok := parseList(b, ",")
+					if !ok {
+						good = false
+						break
+					}
+					cc.Hosts = append(cc.Hosts, config.HostConfigOptional{Patterns: ps, CAFiles: []string{strconv.Itoa(i)}})
+				}
+			}
+			if !good {
+				break
+			}
+			res = Guard(func() string {
+				var rs []string
+				for _, h := range hostsL {
+					hc := cc.MatchHost(string(h))
+					if len(hc.CAFiles) == 0 {
+						rs = append(rs, "none")
+					} else {
+						rs = append(rs, strings.Join(hc.CAFiles, ","))
+					}
+				}
+				return strings.Join(rs, "/")
 			})
 		case len(f) == 3 && f[0] == "vhost":
 			n, ok := Unhex(f[1])
